@@ -355,6 +355,9 @@ class FilterFastaCLI(Contract):
             return SymObj('FilteredPool')
         reg.method_('PoolStub19', 'filter', do_filter)
         reg.method_('FilteredPool', 'write', lambda I, o, a, k: c._cur.writes.append(a))
+        # the filtered pool may be empty: the result is written all the same (the output file then holds exactly what passed - nothing)
+        reg.attr_('FilteredPool', 'peptides', lambda I, o: types.SimpleNamespace(sym_truth=lambda I2: I2.e.bool('some_peptide_passes_the_filters'),
+                                                                                 sym_len=lambda I2: I2.e.int('n_peptides_passing')))
 
     def skip_havoc(self, I, env, k):
         st = self._cur
@@ -560,4 +563,64 @@ class NativeFilterCLI(NativeCheck):
         return None
 
 
-NATIVE = [NativeFilter(), NativeFilterCLI()]
+class NativeFilterFiles(NativeCheck):
+    name = 'filter_cli_files'
+    props = ('C19',)
+    functions = (f'{FFC}:filter_fasta',)
+    bounded_for = ('what the command reads and writes around the filter: a denylist FASTA whose sequences are wrapped over several lines or carry titles '
+                   'only, peptides of coding transcripts kept by --keep-canonical, and an output file that holds exactly what passed - also when nothing does '
+                   '(a stale file of an earlier run must not survive)')
+    bound = '3 hand-made inputs through the real command function'
+    quick_budget_s = 20
+    thorough_budget_s = 20
+
+    def cases(self, rng, tier):
+        for nm in ('wrapped-denylist', 'canonical-kept', 'nothing-passes'):
+            yield dict(case=nm)
+
+    def check(self, inp):
+        import tempfile, shutil, pickle, argparse
+        from pathlib import Path
+        from moPepGen.cli.filter_fasta import filter_fasta
+        d = Path(tempfile.mkdtemp(prefix='verif_c19f_'))
+        long_pep = 'ACDEFGHIKLMNPQRSTVWY' * 4 + 'K'            # 81 residues: FASTA writers wrap at 60 columns
+        try:
+            with open(d / 'coding_transcripts.pkl', 'wb') as fh:
+                pickle.dump({'ENST_C'}, fh)
+            base = dict(command='filterFasta', input_path=d / 'in.fasta', output_path=d / 'out.fasta', exprs_table=None, skip_lines=0, delimiter='\t',
+                        tx_id_col='1', quant_col='2', quant_cutoff=None, keep_all_coding=False, keep_all_noncoding=False, enzyme='trypsin', miscleavages=None,
+                        denylist=None, keep_canonical=False, index_dir=d, annotation_gtf=None, reference_source=None, quiet=True, debug_level=1)
+            if inp['case'] == 'wrapped-denylist':
+                (d / 'in.fasta').write_text(f'>ENST_N|SNV-10-A-T|1\n{long_pep}\n>ENST_N|SNV-20-A-T|1\nCCCCCCCCCK\n')
+                (d / 'deny.fasta').write_text(f'>some protein\n{long_pep[:60]}\n{long_pep[60:]}\n')
+                base.update(denylist=d / 'deny.fasta')
+                exp = {'CCCCCCCCCK'}
+            elif inp['case'] == 'canonical-kept':
+                (d / 'in.fasta').write_text('>ENST_C|SNV-10-A-T|1\nAAAAAAAAAK\n>ENST_N|SNV-20-A-T|1\nCCCCCCCCCK\n')
+                (d / 'deny.fasta').write_text('>x\nAAAAAAAAAK\n>y\nCCCCCCCCCK\n')
+                base.update(denylist=d / 'deny.fasta', keep_canonical=True)
+                exp = {'AAAAAAAAAK'}
+            else:
+                (d / 'in.fasta').write_text('>ENST_N|SNV-20-A-T|1\nCCCCCCCCCK\n')
+                (d / 'deny.fasta').write_text('>y\nCCCCCCCCCK\n')
+                (d / 'out.fasta').write_text('>ENST_N|SNV-20-A-T|1\nCCCCCCCCCK\n')       # left over from a looser run
+                base.update(denylist=d / 'deny.fasta')
+                exp = set()
+            filter_fasta(argparse.Namespace(**base))
+            out = (d / 'out.fasta').read_text() if (d / 'out.fasta').exists() else ''
+            got, cur = set(), ''
+            for l in out.splitlines() + ['>']:
+                if l.startswith('>'):
+                    if cur:
+                        got.add(cur)
+                    cur = ''
+                else:
+                    cur += l.strip()
+            if got != exp:
+                return dict(call=f'filterFasta, case {inp["case"]}', observed=sorted(x[:30] for x in got), expected=sorted(x[:30] for x in exp), signature='output-is-not-what-passed:' + inp['case'])
+        finally:
+            shutil.rmtree(d, ignore_errors=True)
+        return None
+
+
+NATIVE = [NativeFilter(), NativeFilterCLI(), NativeFilterFiles()]
